@@ -77,6 +77,19 @@ Proof.
 Qed.
 Print Assumptions C06_split_quota_honoured.
 
+(* with a forced split count q the recursion still terminates whenever the request is feasible (n >= 2^q) and every node of size
+   >= 2 keeps at least two unique samples: the forced splits go down the leftmost path (DFS, shared counter) and halve the node *)
+Theorem C06_terminates_with_forced_splits : forall L ov q n, 1 <= L -> ov_ok2 ov -> 0 <= q -> 1 <= n -> 2 ^ q <= n ->
+  exists s c, build (Z.to_nat n) L ov (Some q) 0 n = Ok s c /\ q <= nsplits s /\ shape_ok L ov s = true.
+Proof.
+  intros L ov q n HL Hov Hq Hn Hp.
+  destruct (build_terminates_quota L ov q HL Hov (Z.to_nat n) 0 n Hn ltac:(lia)) as (s & c & E).
+  - rewrite Z.sub_0_r, Z.max_r by lia. exact Hp.
+  - exists s, c. split; [exact E|]. destruct (build_count _ _ _ _ _ _ _ _ E) as [Ec Qc]. cbn in Qc.
+    split; [lia|eapply build_shape_ok; exact E].
+Qed.
+Print Assumptions C06_terminates_with_forced_splits.
+
 (* non-vacuity: concrete runs of the model that meet the hypotheses *)
 Example C06_example_run :
   build 37 10 (fun _ => 0) None 0 37 =
